@@ -202,6 +202,19 @@ MapLits(n) == {<<VarS("m", MapOfEntries(es)), P(0), ES(Id("m"))>> : es \in Entry
                       ES(CallE(Id("keys"), <<Id("m")>>))>> : es \in EntrySeqs(n)}
               \cup {<<VarS("s", SetOfEntries(es)), ES(CallE(Id("print"), <<Id("s")>>)), ES(CallE(Id("len"), <<Id("s")>>))>>
                     : es \in EntrySeqs(n) \ {<<>>}}
+              \* every way of listing a set's members must follow the sorted order: keys, sorted, list, iteration
+              \cup {<<VarS("s", [k |-> "set", items |-> its]),
+                      ES(CallE(Id("print"), <<CallE(Id("keys"), <<Id("s")>>), CallE(Id("sorted"), <<Id("s")>>), CallE(Id("list"), <<Id("s")>>)>>)),
+                      [k |-> "range", style |-> "range", vars |-> <<"k">>, c |-> Id("s"), body |-> <<ES(CallE(Id("print"), <<Id("k")>>))>>],
+                      ES(CallE(Id("keys"), <<Id("s")>>))>>
+                    : its \in {<<I(3), I(1), I(2)>>, <<I(10), I(9), I(8), I(7)>>, <<Str1(98), Str1(97), Str1(99)>>,
+                               <<I(2), Str1(97), I(1), Str1(98)>>, <<I(5), I(4), I(3), I(2), I(1), I(0)>>}}
+              \* and every way of listing a map's entries: keys, values, items-like iteration
+              \cup {<<VarS("m", [k |-> "map", keys |-> <<Str1(99), Str1(97), Str1(100), Str1(98)>>, vals |-> <<I(3), I(1), I(4), I(2)>>]),
+                      ES(CallE(Id("print"), <<CallE(Id("keys"), <<Id("m")>>), CallE(AttrE(Id("m"), "keys", <<107, 101, 121, 115>>), <<>>),
+                                             CallE(AttrE(Id("m"), "values", <<118, 97, 108, 117, 101, 115>>), <<>>), CallE(Id("sorted"), <<Id("m")>>)>>)),
+                      [k |-> "range", style |-> "in", vars |-> <<"v">>, c |-> Id("m"), body |-> <<ES(CallE(Id("print"), <<Id("v")>>))>>],
+                      ES(Id("m"))>>}
 
 \* ---------- closures (C02) ----------
 \* a chain of d nested function literals; level i declares variable v_i (initial value i); the innermost
